@@ -26,8 +26,10 @@ import (
 // A job: decode a binary message into its Go type, then produce all four encodings and the
 // binary re-encoding of the XML and JSON round trips.
 type c20Job struct {
-	Kind string `json:"kind"` // request | response | value
+	Kind string `json:"kind"` // request | response | value | cparams (a header-less typed value: no version applies)
 	Hex  string `json:"hex"`
+	// Expect: the binary encoding the reference encoder predicts for the decoded value (every child must produce it)
+	Expect string `json:"expect_binary_hex,omitempty"`
 }
 
 type c20Plan struct {
@@ -43,6 +45,8 @@ func c20Fresh(kind string) any {
 		return &kmip.RequestMessage{}
 	case "response":
 		return &kmip.ResponseMessage{}
+	case "cparams":
+		return &kmip.CryptographicParameters{}
 	}
 	return &ttlv.Value{}
 }
@@ -94,6 +98,9 @@ func c20Exec(j c20Job, e *c20Encoders) (digest string) {
 	}
 	h := sha256.New()
 	bin := e.encode("binary", v)
+	if j.Expect != "" && hex.EncodeToString(bin) != j.Expect {
+		return "binary-differs-from-reference:" + hex.EncodeToString(bin)
+	}
 	x := e.encode("xml", v)
 	js := e.encode("json", v)
 	tx := e.encode("text", v)
@@ -209,6 +216,11 @@ func c20Run(p c20Plan, dir string) (sig string, err error) {
 	if err != nil {
 		return "sequential-child-failed", fmt.Errorf("%w\n%s", err, tail(out))
 	}
+	for i, d := range ref {
+		if strings.HasPrefix(d, "binary-differs-from-reference:") {
+			return "result-depends-on-history", fmt.Errorf("job %d (%s): the sequential child (jobs in list order, one process) encodes %s, the reference encoder predicts %s for this value alone", i, p.Jobs[i].Kind, d[30:], p.Jobs[i].Expect)
+		}
+	}
 	for _, mode := range []string{"concurrent", "history"} {
 		got, out, err := c20RunChild(mode, planPath)
 		if err != nil {
@@ -236,9 +248,9 @@ func tail(s string) string {
 
 func TestC20History(t *testing.T) {
 	const name = "TestC20History"
-	rec := evid.New("C20", name, "work lists of 2..14 encode/decode jobs (requests, responses and generic values of mixed versions) executed by three fresh child processes of the test binary: sequentially (reference), "+
+	rec := evid.New("C20", name, "work lists of 2..14 encode/decode jobs (requests, responses, generic values and header-less typed values - CryptographicParameters with later-version fields - of mixed versions) executed by three fresh child processes of the test binary: sequentially (reference), "+
 		"concurrently from a cold start with G in {2,8,32} goroutines released together in a drawn permutation, and on one reused, cleared encoder per encoding after a drawn prefix of unrelated jobs and in reverse order; "+
-		"oracle: per-job digest of the four encodings and of the binary re-encoding after the XML and JSON round trips is identical across the children; the race-built variant additionally fails on any reported data race; "+
+		"oracle: per-job digest of the four encodings and of the binary re-encoding after the XML and JSON round trips is identical across the children, and every child's binary encoding equals the one the reference encoder predicts for the value alone; the race-built variant additionally fails on any reported data race; "+
 		"non-trivial = the list holds messages of at least two different protocol versions or two different kinds; distinct by plan").Attach(t)
 	dir := t.TempDir()
 	if rp := evid.LoadReplay(name); rp != nil {
@@ -267,7 +279,18 @@ func TestC20History(t *testing.T) {
 			case 0:
 				to := gen.DefaultTreeOpts()
 				to.TextSafe, to.Alphabet, to.MaxDepth = true, "xml", 3
-				j = c20Job{"value", hex.EncodeToString(ttlvref.Write(gen.Tree(rt, to)))}
+				if rapid.Bool().Draw(rt, "headerless") {
+					// a typed value without a header of its own: no protocol version applies, every populated field is written
+					cp := gen.CryptoParams(rt)
+					w := &refwalk.Walker{}
+					tr, err := w.Any(cp)
+					if err != nil {
+						rt.Fatalf("harness: %v", err)
+					}
+					j = c20Job{Kind: "cparams", Hex: hex.EncodeToString(ttlvref.Write(tr)), Expect: hex.EncodeToString(ttlvref.Write(tr))}
+				} else {
+					j = c20Job{Kind: "value", Hex: hex.EncodeToString(ttlvref.Write(gen.Tree(rt, to)))}
+				}
 			case 1, 2:
 				m := gen.Request(rt, gen.MsgOpts{Alphabet: "xml", TextSafe: true, MaxItems: 2})
 				w := &refwalk.Walker{}
@@ -275,7 +298,7 @@ func TestC20History(t *testing.T) {
 				if err != nil {
 					rt.Fatalf("harness: %v", err)
 				}
-				j = c20Job{"request", hex.EncodeToString(ttlvref.Write(tr))}
+				j = c20Job{Kind: "request", Hex: hex.EncodeToString(ttlvref.Write(tr)), Expect: hex.EncodeToString(ttlvref.Write(tr))}
 				versions[m.Header.ProtocolVersion.String()] = true
 			default:
 				m := gen.Response(rt, gen.MsgOpts{Alphabet: "xml", TextSafe: true, MaxItems: 2})
@@ -284,7 +307,7 @@ func TestC20History(t *testing.T) {
 				if err != nil {
 					rt.Fatalf("harness: %v", err)
 				}
-				j = c20Job{"response", hex.EncodeToString(ttlvref.Write(tr))}
+				j = c20Job{Kind: "response", Hex: hex.EncodeToString(ttlvref.Write(tr)), Expect: hex.EncodeToString(ttlvref.Write(tr))}
 				versions[m.Header.ProtocolVersion.String()] = true
 			}
 			kinds[j.Kind] = true
